@@ -132,6 +132,9 @@ func cmdVerify(args []string) {
 			} else {
 				bad++
 			}
+			if r.ToolError != "" {
+				fmt.Println("  TOOL-ERROR:", r.ToolError)
+			}
 			if *verbose || !ok {
 				fmt.Printf("  %-14s %-8s %5.2fs %s\n", r.Status, r.Solver, r.Seconds, r.Obl.Name)
 				if !ok && r.Obl.Desc != "" {
